@@ -147,7 +147,7 @@ def planCmds (e : PlanEnv) (rows : List Row) : List Cmd :=
     else none)
 
 def planCache (e : PlanEnv) (rows : List Row) (c : List (Nat × Nat)) : List (Nat × Nat) :=
-  if rows.any (fun r => r.1 == "cache-put" && r.2.1 == "co" && r.2.2.1 == "dCoData" && e.guard r.2.2.2) then c ++ [(e.co.id, e.ko)] else c
+  if rows.any (fun r => r.1 == "cache-put" && r.2.1 == "key" && r.2.2.1 == "dCoData" && e.guard r.2.2.2) then c ++ [(e.co.id, e.ko)] else c
 
 /-- **launch_step_from_source.** For every driver state, queue, object and allocator answers, the model's
 `step` for an ordinary launch is the interpretation of the plan regenerated from `EnqueueLaunchKernel`:
@@ -188,19 +188,36 @@ theorem unified_step_from_source (pid : Nat) (co : Co) (g : Nat) (gs addrs : Lis
 
 open Gen.HsacoSkel in
 /-- **driver_constants_from_source.** The AQL packet has 64 bytes; the packet's `KernelObject` is the
-code buffer and `KernargAddress` the argument buffer; the cache is keyed by the object pointer alone (no
-process, no device: the root of `code_address_same_process_full_refuted`); both compute units start a
+code buffer and `KernargAddress` the argument buffer; the cache is keyed by the struct `codeObjKey` = (process of
+the launching context, object pointer) — the tag `ckey (pidOf queues q) co.id` that `keyOp` gives the code object
+(`cache_key_from_source`; before the repair the key was the pointer alone, the root of
+`code_address_same_process_before_fix_refuted`); both compute units start a
 wavefront at `KernelObject + KernelCodeEntryByteOffset` (`entryPC`). -/
 theorem driver_constants_from_source :
     packetSize = Drv.packetSize ∧
     "packet.KernelObject = uint64(dCoData)" ∈ packetFields ∧
     "packet.KernargAddress = uint64(dKernArgData)" ∈ packetFields ∧
-    cacheType = "map[*insts.KernelCodeObject]Ptr" ∧
+    cacheType = "map[codeObjKey]Ptr" ∧
     startPC = [
       "amd/emu/computeunit.go: pkt.KernelObject + co.KernelCodeEntryByteOffset",
       "amd/timing/cu/wfdispatcher.go: wf.Packet.KernelObject + wf.CodeObject.KernelCodeEntryByteOffset"] ∧
     (∀ ko co, entryPC ko co = ko + co.entry) := by
   refine ⟨rfl, by decide, by decide, rfl, rfl, fun _ _ => rfl⟩
+
+open Gen.HsacoSkel in
+/-- **cache_key_from_source.** The key both cache accesses of `EnqueueLaunchKernel` use is built, in the ordinary-GPU
+branch and before the lookup, from `queue.Context.pid` and the code object pointer, and the key struct has exactly
+these two fields — what `keyOp` / `ckey` transcribe (a key without the process, or with further fields, breaks this
+obligation). -/
+theorem cache_key_from_source :
+    cacheKeyFields = ["pid vm.PID", "co *insts.KernelCodeObject"] ∧
+    launchPlan.take 2 =
+      [("unified", "co", "", "dev.Type == internal.DeviceTypeUnifiedGPU"),
+       ("key", "key", "codeObjKey{pid: queue.Context.pid, co: co}", "!(dev.Type == internal.DeviceTypeUnifiedGPU)")] ∧
+    (launchPlan.filter (fun r => r.1 == "cache-get" || r.1 == "cache-put")).map (fun r => (r.1, r.2.1, r.2.2.1)) =
+      [("cache-get", "dCoData,cached", "key"), ("cache-put", "key", "dCoData")] ∧
+    (∀ qs q gpu co addrs, keyOp qs (.launch q gpu co addrs) = .launch q gpu { co with id := ckey (pidOf qs q) co.id } addrs) := by
+  refine ⟨by decide, by decide, by decide, fun _ _ _ _ _ => rfl⟩
 
 /-- the interpretation on a concrete call: a first launch uploads, a second launch of the same object does not -/
 example :
